@@ -105,9 +105,57 @@ fn float_case(st: &mut Stats, rng: &mut Rng, rows: usize, cols: usize) {
 
 /// products of one live sparse matrix after each step of an edit history (insert new / overwrite / scale / transpose):
 /// every product must equal the dense product of the model at that moment
+/// Near-twins: matrices of the same shape, entry count and column starts that differ from a base matrix in the row index of
+/// ONE or TWO stored entries (every pair of positions, every admissible replacement row). base.transpose() is called right
+/// before twin.transpose() on the same thread; the twin's transpose must be the twin's, whatever the library remembers of
+/// the previous call (memoisation keyed on too little shows on minimal perturbations, not on random pairs).
+fn near_twins(st: &mut Stats, rng: &mut Rng) {
+    st.next_case();
+    let (rows, cols) = (rng.usize(3, 8), rng.usize(2, 6));
+    let dens = *rng.pick(&[0.5, 0.7, 0.9]);
+    let m = gen_sm(rng, rows, cols, dens, false);
+    let (val, ri, cs) = m.csc(rng, false);
+    let nnz = val.len();
+    if nnz < 2 || nnz > 30 { return; }
+    let base = match catch(|| Sparse::<Rat>::from_vecs(rows, cols, val.clone(), ri.clone(), cs.clone())) { Outcome::Ok(b) => b, _ => return };
+    let col_of: Vec<usize> = (0..nnz).map(|k| (0..cols).find(|&c| cs[c] <= k && k < cs[c + 1]).unwrap()).collect();
+    let y: Vec<Rat> = (0..rows).map(|i| Rat::int(PRIMES[i % 12] * if i % 2 == 0 { 1 } else { -1 })).collect();
+    let admissible = |ri: &Vec<usize>, k: usize, r: usize| -> bool { r != ri[k] && !(cs[col_of[k]]..cs[col_of[k] + 1]).any(|q| q != k && ri[q] == r) };
+    let mut check = |st: &mut Stats, ri2: &Vec<usize>, what: String| -> bool {
+        let twin = match catch(|| Sparse::<Rat>::from_vecs(rows, cols, val.clone(), ri2.clone(), cs.clone())) { Outcome::Ok(t) => t, _ => return true };
+        let _ = catch(|| base.transpose());
+        st.eval();
+        let want: Vec<Rat> = (0..cols).map(|c| (cs[c]..cs[c + 1]).fold(Rat::ZERO, |a, k| a + val[k] * y[ri2[k]])).collect();
+        match catch(|| twin.transpose().multiply(&vec_to_ohsl(&y)).vec) {
+            Outcome::Ok(got) => if got != want { st.violation("C07:near-twins:transpose().multiply:Rat:wrong-value", format!("{}: base.transpose() then twin.transpose().multiply(y) = {:?}, expected A^T y = {:?}; {}x{} val={:?} row_index(base)={:?} row_index(twin)={:?} col_start={:?}", what, got, want, rows, cols, val, ri, ri2, cs)); return false; },
+            Outcome::Overflow => {}
+            o => { st.violation("C07:near-twins:transpose:panic", format!("{}: {}; row_index(base)={:?} row_index(twin)={:?} col_start={:?}", what, o.describe(), ri, ri2, cs)); return false; }
+        }
+        true
+    };
+    let mut n = 0u64;
+    'outer: for p0 in 0..nnz {
+        for r0 in 0..rows {
+            if !admissible(&ri, p0, r0) { continue; }
+            let mut r1v = ri.clone(); r1v[p0] = r0;
+            n += 1; if !check(st, &r1v, format!("one entry moved (position {} -> row {})", p0, r0)) { break 'outer; }
+            for q0 in p0 + 1..nnz {
+                for r1 in 0..rows {
+                    if !admissible(&r1v, q0, r1) { continue; }
+                    let mut r2v = r1v.clone(); r2v[q0] = r1;
+                    n += 1; if !check(st, &r2v, format!("two entries moved (positions {},{} -> rows {},{})", p0, q0, r0, r1)) { break 'outer; }
+                }
+            }
+        }
+    }
+    st.add("near-twins:pairs-checked", n);
+    st.nontrivial(hmix(hash_str("near-twins"), rng.u64()));
+}
+
 fn history_case(st: &mut Stats, rng: &mut Rng, rows: usize, cols: usize) {
     if rows == 0 || cols == 0 { return; }
     st.next_case();
+    if rng.chance(0.2) { crate::mon::c06::rejected_calls(st, rng); }
     let dens = *rng.pick(&[0.1, 0.3, 0.3, 0.6, 1.0]);
     let zeros = rng.chance(0.3);
     let mut m = gen_sm(rng, rows, cols, dens, zeros);
@@ -140,6 +188,7 @@ pub fn run(ctx: &Ctx) -> Report {
     let stats = par_run(ctx, TAG, nshape, |u, rng, st| {
         let (r, c) = ((u / 11) as usize, (u % 11) as usize);
         for _ in 0..reps { exact_case(st, rng, r, c); float_case(st, rng, r, c); history_case(st, rng, r, c); }
+        near_twins(st, rng);
     });
     let mut rep = Report::new(stats,
         "for every shape (rows,cols) in [0,10]^2: random duplicate-free patterns (densities 0..1, forced empty rows/columns, explicit zeros, triplets shuffled or raw CSC with scrambled rows); vectors of distinct signed primes; multiply, transpose_multiply, transpose().multiply, adjoint identity <y,Ax>=<A^T y,x>, and all products again after scale(f) — exact over Rat; f64: integer data exact, general data within 4*nnz*u*sum|a||x| of a double-double reference. Plus edit histories on one live matrix (insert/overwrite/scale/transpose) with both products checked against the dense model after every step. Non-trivial: at least 2 cells; distinct = distinct (shape, entries, x) hashes");
